@@ -11,6 +11,7 @@ package main
 
 import (
 	"bytes"
+	"context"
 	"database/sql"
 	"encoding/base64"
 	"encoding/json"
@@ -56,7 +57,7 @@ func start(bin, db string) (*server, error) {
 		"--aio-store-sqlite-path", db,
 		"--api-http-addr", fmt.Sprintf("127.0.0.1:%d", hp), "--api-grpc-addr", fmt.Sprintf("127.0.0.1:%d", gp),
 		"--aio-sender-plugin-poll-addr", fmt.Sprintf("127.0.0.1:%d", pp), "--metrics-addr", fmt.Sprintf("127.0.0.1:%d", mp),
-		"--system-signal-timeout", "20ms", "--system-task-enqueue-delay", "50ms")
+		"--system-signal-timeout", "20ms", "--system-task-enqueue-delay", "50ms", "--aio-store-sqlite-tx-timeout", "300ms")
 	var buf bytes.Buffer
 	cmd.Stdout, cmd.Stderr = &buf, &buf
 	if err := cmd.Start(); err != nil {
@@ -335,8 +336,39 @@ rounds:
 			stop := make(chan struct{})
 			done := make(chan struct{})
 			go func() { traffic(r, s, k, stop, &acks, &mu); close(done) }()
+			if k%2 == 1 {
+				// contention: another process holds the write lock longer than the store's transaction timeout, so
+				// batches time out in the middle; whatever is acknowledged meanwhile must still be stored
+				go func() {
+					cdb, err := sql.Open("sqlite3", db+"?_busy_timeout=100")
+					if err != nil {
+						return
+					}
+					defer cdb.Close()
+					for i := 0; i < 6; i++ {
+						select {
+						case <-stop:
+							return
+						default:
+						}
+						if conn, err := cdb.Conn(context.Background()); err == nil {
+							if _, err := conn.ExecContext(context.Background(), "BEGIN IMMEDIATE"); err == nil {
+								time.Sleep(450 * time.Millisecond)
+								_, _ = conn.ExecContext(context.Background(), "COMMIT")
+								counts["lock_holds"]++
+							}
+							conn.Close()
+						}
+						time.Sleep(30 * time.Millisecond)
+					}
+				}()
+			}
 			// kill in the middle of the traffic (sometimes almost at once: a crash during recovery)
-			time.Sleep(time.Duration(20+r.Intn(600)) * time.Millisecond)
+			if k%2 == 1 {
+				time.Sleep(time.Duration(2200+r.Intn(900)) * time.Millisecond)
+			} else {
+				time.Sleep(time.Duration(20+r.Intn(600)) * time.Millisecond)
+			}
 			if k == *kills {
 				// last phase: stop the clients, then a graceful shutdown with the default configuration
 				close(stop)
